@@ -181,6 +181,8 @@ def run_case(case, workdir):
 
 
 def shrink_candidates(case):
+    if case.get("kind") == "blackjax":
+        return []  # the scenario is already small; the generic shrinkers assume the numpy model
     scn = scenario_of(case)
     base = {k: v for k, v in case.items() if k != "scenario"}
     out = [{**base, "scenario": scn, "twins": [t]} for t in ("checkpoint", "n_final", "choice", "resume") if case.get("twins") != [t]]
